@@ -370,7 +370,7 @@ func (s *Schema) allValid(name string, p *PVal) bool {
 	var ts []touch
 	s.touches(name, p, 0, &ts)
 	for _, t := range ts {
-		if t.s && !s.validUnder(t.f.Type, t.v, directives, fp) {
+		if t.s && !s.valid(t.f.Type, t.v) {
 			return false
 		}
 		if t.nested != nil && !s.allValid(s.recordOf(t.f.Type), t.nested) {
